@@ -35,6 +35,7 @@ type Engine struct {
 	tableFacts map[string][]string // global key -> verified table facts (SMT templates with %s for the global term)
 	refs     map[*ssa.Function][]string
 	writers  map[string]bool
+	embIDs   map[string]int
 }
 
 var loadPatterns = []string{"./pkg/error", "./pkg/runtime", "./pkg/value", "./pkg/syntax", "./pkg/syntax/zh", "./pkg/io", "./pkg/exec", "./pkg/common", "./stdlib/json", "./stdlib/file"}
@@ -598,7 +599,7 @@ func (eng *Engine) buildAll(f *ssa.Function) []*FnVC {
 		con := *eng.specs.Contracts[k]
 		if own := eng.specs.Contracts[fnKey(f)]; own != nil {
 			// loop invariants are hints about the body, whichever contract it is checked against
-			con.Invs, con.Decr = own.Invs, own.Decr
+			con.Invs, con.Decr, con.Steps = own.Invs, own.Decr, own.Steps
 		}
 		out = append(out, eng.buildVCWith(f, &con, fnKey(f)+"~as~"+short))
 	}
@@ -684,4 +685,16 @@ func (eng *Engine) writesFieldsOf(fn *ssa.Function, n *types.Named) bool {
 	}
 	eng.writers[key] = res
 	return res
+}
+
+func (eng *Engine) embID(name string) int {
+	if eng.embIDs == nil {
+		eng.embIDs = map[string]int{}
+	}
+	if id, ok := eng.embIDs[name]; ok {
+		return id
+	}
+	id := len(eng.embIDs) + 1
+	eng.embIDs[name] = id
+	return id
 }
